@@ -194,9 +194,9 @@ def judge(ctx, s, r):
 
 def run(ctx: core.Ctx):
     if ctx.quick:
-        states = scriptgen.tlc_programs(ctx, ["Script_n3.cfg", "Script_loops4t.cfg", "Script_ops3.cfg", "Script_pasg.cfg", "Script_lvar.cfg"], "Script_sim.cfg", sim_num=8000, sim_depth=16)
+        states = scriptgen.tlc_programs(ctx, ["Script_n3.cfg", "Script_loops4t.cfg", "Script_ops3.cfg", "Script_pasg.cfg", "Script_lvar.cfg", "Script_while.cfg"], "Script_sim.cfg", sim_num=8000, sim_depth=16)
     else:
-        states = scriptgen.tlc_programs(ctx, ["Script_n3.cfg", "Script_loops4t.cfg", "Script_iffor4t.cfg", "Script_ops3.cfg", "Script_pasg.cfg", "Script_lvar.cfg", "Script_n4.cfg"], "Script_sim.cfg", sim_num=30000, sim_depth=18)
+        states = scriptgen.tlc_programs(ctx, ["Script_n3.cfg", "Script_loops4t.cfg", "Script_iffor4t.cfg", "Script_ops3.cfg", "Script_pasg.cfg", "Script_lvar.cfg", "Script_while7.cfg", "Script_n4.cfg"], "Script_sim.cfg", sim_num=30000, sim_depth=18)
     vac = core.run_tlc("Script", "Script_vacuity.cfg", timeout=900)
     if vac.ok:
         raise core.MachineryError("vacuity: no accepted program with an if inside a for loop is reachable")
@@ -206,6 +206,12 @@ def run(ctx: core.Ctx):
     old = core.run_tlc("Script", "Script_lvar_old.cfg", timeout=900)
     if old.ok:
         raise core.MachineryError("vacuity: a for variable read after its loop (fixed defect) is not reachable in Script_lvar_old.cfg")
+    old = core.run_tlc("Script", "Script_kw_old.cfg", timeout=900)
+    if old.ok:
+        raise core.MachineryError("vacuity: a variable read only inside a keyword-argument expression (fixed defect) is not reachable in Script_kw_old.cfg")
+    old = core.run_tlc("Script", "Script_while_old.cfg", timeout=900)
+    if old.ok:
+        raise core.MachineryError("vacuity: a while loop whose trailing break ignores the loop condition (fixed defect) is not reachable in Script_while_old.cfg")
     ctx.set("spec_programs", len(states))
     # stage 1 (cheap, wide): the structure the real converter emits (which variables each If exports / each Loop
     # carries) against the selections Script.tla computes, for EVERY derived program the model accepts.
@@ -229,7 +235,10 @@ def run(ctx: core.Ctx):
              [r["py"][0] == "ok" for r in s["res"]]) for i, s in enumerate(chosen)]
     # direction B: traces recorded by the hooks in converter.py (the repository's own programs and tests, and the
     # derived programs) validated by TLC against Converter.tla; this check owns the selection / ordering clauses
-    convtrace.stage(ctx, [scriptgen.program_src(s["prog"], list(s["ret"])) for s in chosen[:1500 if ctx.quick else 6000]], "C01")
+    # hand-written programs outside the grammar (keyword expressions, nested functions, multi-output ops, ...): eager vs
+    # onnxruntime here, their traces (selections judged by the spec from the statement tree) together with the others
+    _, xtraces = convtrace.run_extra(ctx)
+    convtrace.stage(ctx, [scriptgen.program_src(s["prog"], list(s["ret"])) for s in chosen[:1500 if ctx.quick else 6000]], "C01", extra_traces=xtraces)
     results = core.pmap_safe(run_program, args, timeout=90)
     nontriv = 0
     for s, r in zip(chosen, results):
